@@ -10,7 +10,16 @@ from ..ref import canon, model as M
 from ..runner import Check, Violation, guard, outcome
 
 JAVA = {"MD5": "md5", "SHA-256": "sha256"}
-ADVERTISED = set(hashlib.algorithms_guaranteed) | set(JAVA) | {"CRC-64-AVRO"}
+# the standard names of java.security.MessageDigest (the library may come to advertise more of them than the two the statement
+# lists; whatever it advertises must then be that digest)
+JAVA_STANDARD = {"MD5": "md5", "SHA-1": "sha1", "SHA-224": "sha224", "SHA-256": "sha256", "SHA-384": "sha384", "SHA-512": "sha512",
+                 "SHA-512/224": "sha512_224", "SHA-512/256": "sha512_256", "SHA3-224": "sha3_224", "SHA3-256": "sha3_256", "SHA3-384": "sha3_384", "SHA3-512": "sha3_512"}
+try:
+    from fastavro._schema_common import FINGERPRINT_ALGORITHMS as _LIB_ADVERTISED
+except Exception:  # noqa
+    _LIB_ADVERTISED = ()
+ADVERTISED = set(hashlib.algorithms_guaranteed) | set(JAVA) | {"CRC-64-AVRO"} | set(_LIB_ADVERTISED)
+EXTRA_ADVERTISED = sorted(n for n in set(_LIB_ADVERTISED) - set(hashlib.algorithms_guaranteed) - set(JAVA) - {"CRC-64-AVRO"})
 FIXED_LEN = sorted(a for a in hashlib.algorithms_guaranteed if not a.startswith("shake_"))
 NEAR = ["", " ", "crc-64-avro", "CRC-64-AVRO ", "CRC64", "CRC-64", "crc-64-AVRO", "SHA256", "sha-256", "Sha-256", "SHA-1", "SHA1", "sha-1", "md-5", "Md5", "MD5 ", "mD5",
         "ripemd160", "sm3", "sha512_256", "sha512_224", "md5-sha1", "whirlpool", "md4", "UNKNOWN", "sha3-256", "SHA3_256", "blake2", "BLAKE2B", "sha257", "0", "None", "SHA-512", "SHA-384"]
@@ -28,7 +37,7 @@ class C14(Check):
         "of the 256 table indices the running CRC state visited; all 256 must be covered. Non-trivial = non-empty text; "
         "distinct by digest of (text, unknown names)."
     )
-    assumptions = ["shake_128/shake_256 are advertised but variable-length and outside the statement", "advertised set = hashlib.algorithms_guaranteed | {MD5, SHA-256, CRC-64-AVRO}"]
+    assumptions = ["shake_128/shake_256 are advertised but variable-length and outside the statement", "advertised set = hashlib.algorithms_guaranteed | {MD5, SHA-256, CRC-64-AVRO} | whatever else the library lists in FINGERPRINT_ALGORITHMS (Java standard names are checked against the digest they denote)"]
     required_labels = ["text:empty", "text:non-ascii", "text:canonical-form", "unknown-name", "hashlib-accepts-unadvertised", "crc-leading-zero-byte", "text:len>=65536", "text:not-NFC", "crc:all-256-table-indices-visited"]
     quick = (1500, 1)
     thorough = (20000, 16)
@@ -129,6 +138,16 @@ class C14(Check):
             got = guard("fingerprint-digest", fingerprint, text, name)
             if got != want:
                 raise Violation("digest-mismatch:" + name, f"fingerprint({text!r:.80}, {name!r}) = {got!r}, hashlib gives {want!r}")
+        for name in EXTRA_ADVERTISED:
+            # a further name the library advertises: a Java spelling must be that digest; anything else cannot be decided
+            real = JAVA_STANDARD.get(name)
+            if real is None or real not in hashlib.algorithms_available:
+                labels.add("advertised-name-without-reference")
+                continue
+            want = hashlib.new(real, raw).hexdigest()
+            got = guard("fingerprint-digest", fingerprint, text, name)
+            if got != want:
+                raise Violation("digest-mismatch:" + name, f"fingerprint({text!r:.80}, {name!r}) = {got!r}, the {real} digest is {want!r}")
         for name in case["unknown"]:
             if name in ADVERTISED:
                 continue
